@@ -118,7 +118,13 @@ func runC13(c *fw.Ctx) {
 		}
 		s0 := st.KeySet()
 		c.Tracef("checkpoint (SaveRoot) root=%x weight=%d", croot[:4], cw)
-		if !mutate(1+r.Intn(8), true) || !commit(lvl) {
+		abandoned := r.Intn(7) == 0 // the batch is never committed: the block is abandoned and rolled back as it is
+		if !mutate(1+r.Intn(8), true) {
+			return
+		}
+		if abandoned {
+			c.Count("abandoned_batches_rolled_back", 1)
+		} else if !commit(lvl) {
 			return
 		}
 		s1 := st.KeySet()
@@ -281,7 +287,7 @@ func init() {
 		ID:    "C13",
 		Level: "exploration",
 		Rule: "each case: build and commit a checkpoint state at a collapse level 0..5 (1 in 12 with an empty checkpoint; optionally one GC pass), SaveRoot, then 1..8 changes (new keys, changed values, unchanged re-writes, delete-and-re-add of identical content, deletes), " +
-			"commit at the same level, optionally one GC pass, optionally a second Commit with nothing to write (possibly after a rejected delete of an absent key), then Rollback() or RollbackTrie (with a hash node, or with a CopyRoot(level) copy taken at the checkpoint). Oracle: Root()/Weight() equal the checkpoint's; the full observational check (every block's owner, value, verifying proof; every canonical node present) passes on the live trie and on a trie reopened " +
+			"commit at the same level (one batch in seven is never committed: the block is abandoned and rolled back as it is), optionally one GC pass, optionally a second Commit with nothing to write (possibly after a rejected delete of an absent key), then Rollback() or RollbackTrie (with a hash node, or with a CopyRoot(level) copy taken at the checkpoint). Oracle: Root()/Weight() equal the checkpoint's; the full observational check (every block's owner, value, verifying proof; every canonical node present) passes on the live trie and on a trie reopened " +
 			"from the checkpoint root; with S0/S1/S2 the storage key sets at checkpoint / after the commit / after rollback, (S1 \\ S0) ∩ S2 is empty; a quarter of the quick cases and all thorough cases add two GC passes after the rollback and repeat the checks; a third of the histories then apply the same batch again, commit and roll back a second time (nothing of either commit may remain); then the history continues from the rolled-back trie (new changes, commit, full check, reopen), and half of the histories run a second checkpoint/commit/rollback cycle. distinct non-trivial = distinct traces",
 		Cases: func(tier string) int {
 			if tier == "thorough" {
@@ -291,7 +297,7 @@ func init() {
 		},
 		Run: runC13,
 		Floors: map[string]int64{"rollbacks": 20000, "rollback_via:Rollback": 8000, "rollback_via:RollbackTrie": 8000, "gc_between_commit_and_rollback": 8000, "change:unchanged-rewrite": 3000, "change:del-readd-identical": 3000,
-			"change:new": 20000, "change:deleted": 5000, "post_rollback_gc_checks": 4000, "commits_after_rollback": 10000, "retried_batches_rolled_back": 4000, "rollbacks_to_a_copied_root": 3000, "empty_commits_before_rollback": 4000},
+			"change:new": 20000, "change:deleted": 5000, "post_rollback_gc_checks": 4000, "commits_after_rollback": 10000, "retried_batches_rolled_back": 4000, "rollbacks_to_a_copied_root": 3000, "empty_commits_before_rollback": 4000, "abandoned_batches_rolled_back": 2500},
 		Assumptions: []string{"at most one GC pass between the commit and the rollback (the property's domain)"},
 	})
 }
